@@ -9442,10 +9442,21 @@ class SVG(Group):
                         if s is None:
                             # s was not established we continue without it.
                             continue
-                    s.render(ppi=ppi, width=width, height=height)
-                    if reify:
-                        s.reify()
-                    if s.is_degenerate():
+                    try:
+                        s.render(ppi=ppi, width=width, height=height)
+                        if reify:
+                            s.reify()
+                        degenerate = s.is_degenerate()
+                    except ValueError as e:
+                        # A length that could not be resolved (font-relative units) fails when it is used:
+                        # the element's own attributes are in error, it is not rendered.
+                        if on_error == "ignore":
+                            continue
+                        elif on_error == "raise":
+                            raise e
+                        else:  # "stop"
+                            return root
+                    if degenerate:
                         continue
                     if context is not None:
                         context.append(s)
